@@ -13,9 +13,10 @@ Inductive meth :=
 | MAssertRange | MAssertLt | MAssertLe | MAssertEq | MAssertNe | MAssertGt | MAssertGe
 | MVal.
 
+Inductive lit := LInt (z : Z) | LFloat (m e : Z).
 Inductive stmt :=
 | SInput (d : nat) (k : inkind) (i : nat)
-| SConst (d : nat) (v : pyval)
+| SConst (d : nat) (v : lit)
 | SConstVal (d : nat) (k : Z)
 | SUn (d : nat) (op : uop) (a : nat)
 | SBin (d : nat) (op : bop) (a b : nat)
@@ -26,12 +27,19 @@ Inductive stmt :=
 | SGuarded (cnd : nat) (body : list stmt)            (* runtime.guarded(cond)(lambda: body)() *)
 | SIgnore (b : bool).                                (* runtime.ignore_errors(b) *)
 
+Section WithP.
+Context {p : Z}.
+Local Notation slc := (Sym.slc p).
+Local Notation G := (@Gadgets.G p).
+Local Notation gst := (@Gadgets.gst p).
+Local Notation pyval := (Api.pyval p).
+Local Notation cmd := (Sym.cmd p).
+
 Definition regs := list (nat * pyval).
 Fixpoint rget (r : regs) (i : nat) : pyval :=
   match r with [] => PNone | (j, v) :: r' => if Nat.eqb i j then v else rget r' i end.
 Definition rset (r : regs) (i : nat) (v : pyval) : regs := (i, v) :: r.
 
-Definition with_oid (x : slc) (o : Z) : slc := {| sval := sval x; wire := wire x; oid := o |}.
 Definition name_lc (x : slc) : G slc := if oid x =? 0 then o <- fresh_oid ;; ret (with_oid x o) else ret x.
 (* objects get an identity when they are first stored in a register *)
 Fixpoint name_val (v : pyval) : G pyval :=
@@ -52,9 +60,9 @@ Fixpoint norm_float (fuel : nat) (m e : Z) : Z * Z :=
 Fixpoint out_val (v : pyval) : list cmd :=
   match v with
   | PInt k => [COut 0 (VConst k) []]
-  | PLC x => [COut 1 (sval x) (wire x)]
-  | PBool _ x => [COut 2 (sval x) (wire x)]
-  | PFxp _ x => [COut 3 (sval x) (wire x)]
+  | PLC x => [COutLC 1 x]
+  | PBool _ x => [COutLC 2 x]
+  | PFxp _ x => [COutLC 3 x]
   | PFloat m e => let '(m', e') := if m =? 0 then (0, 0) else norm_float 2000 m e in [COut 4 (VConst m') [(0, e')]]
   | PList l => COut 5 (VConst (Z.of_nat (length l))) [] :: flat_map out_val l
   | PTuple l => COut 6 (VConst (Z.of_nat (length l))) [] :: flat_map out_val l
@@ -70,7 +78,7 @@ Section Gen.
 Variable c : cfg.
 Let n := nbits c.
 Let Rz : Z := R c.
-Definition op2 := pyop c.
+Definition op2 := pyop (p:=p) c.
 
 Definition gen_input (k : inkind) (i : nat) : G pyval :=
   match k with
@@ -110,7 +118,7 @@ Definition gen_meth (m : meth) (recv : pyval) (args : list pyval) : G pyval :=
   (* LinComb *)
   | MToBits k, PLC x, [] => bs <- to_bits x (optk k) ;; ret (PList (map (PBool 0) bs))
   | MCheckPositive k, PLC x, [] => boolr (check_positive x (optk k))
-  | MAssertPositive k, PLC x, [] => unit_none (assert_positive c x (optk k))
+  | MAssertPositive k, PLC x, [] => unit_none (assert_positive x (optk k))
   | MCheckZero, PLC x, [] => boolr (check_zero x)
   | MCheckNonzero, PLC x, [] => r <- check_zero x ;; ret (PBool 0 (bnot r))
   | MAssertZero, PLC x, [] => unit_none (assert_zero x)
@@ -121,7 +129,7 @@ Definition gen_meth (m : meth) (recv : pyval) (args : list pyval) : G pyval :=
   | MVal, PLC x, [] => lcval x ;;; emitc (COut 0 (sval x) []) ;;; ret PNone
   (* LinCombBool *)
   | MCheckPositive None, PBool _ b, [] => boolr (check_positive b n)
-  | MAssertPositive None, PBool _ b, [] => unit_none (assert_positive c b n)
+  | MAssertPositive None, PBool _ b, [] => unit_none (assert_positive b n)
   | MCheckZero, PBool _ b, [] => boolr (check_zero b)
   | MAssertZero, PBool _ b, [] => unit_none (assert_zero b)
   | MAssertNonzero, PBool _ b, [] => unit_none (assert_nonzero b)
@@ -130,7 +138,7 @@ Definition gen_meth (m : meth) (recv : pyval) (args : list pyval) : G pyval :=
   | MVal, PBool _ b, [] => lcval b ;;; emitc (COut 0 (sval b) []) ;;; ret PNone
   (* LinCombFxp *)
   | MCheckPositive None, PFxp _ f, [] => boolr (check_positive f n)
-  | MAssertPositive None, PFxp _ f, [] => unit_none (assert_positive c f n)
+  | MAssertPositive None, PFxp _ f, [] => unit_none (assert_positive f n)
   | MCheckZero, PFxp _ f, [] => boolr (check_zero f)
   | MCheckNonzero, PFxp _ f, [] => r <- check_zero f ;; ret (PBool 0 (bnot r))
   | MAssertZero, PFxp _ f, [] => unit_none (assert_zero f)
@@ -146,7 +154,7 @@ Fixpoint gen_stmt (st : stmt) (r : regs) {struct st} : G regs :=
   let store d v := (v' <- name_val v ;; emit_out v' ;;; ret (rset r d v')) in
   match st with
   | SInput d k i => v <- gen_input k i ;; store d v
-  | SConst d v => store d v
+  | SConst d v => store d (match v with LInt z => PInt z | LFloat m e => PFloat m e end)
   | SConstVal d k => store d (PLC (constv k))
   | SUn d op a => v <- unop c op2 op (rget r a) ;; store d v
   | SBin d op a b => v <- op2 op (rget r a) (rget r b) ;; store d v
@@ -159,7 +167,7 @@ Fixpoint gen_stmt (st : stmt) (r : regs) {struct st} : G regs :=
                     | _ => static_raise TypeError end
   | SGuarded cn body =>
       match rget r cn with
-      | PLC g =>
+      | PLC g | PBool _ g =>          (* add_guard unwraps a LinCombBool *)
           guarded c g ((fix go (b : list stmt) (r0 : regs) : G regs :=
                           match b with [] => ret r0 | s1 :: b' => r1 <- gen_stmt s1 r0 ;; go b' r1 end) body r)
       | PInt k => if k =? 0 then static_raise RuntimeError else if k =? 1 then
@@ -170,19 +178,20 @@ Fixpoint gen_stmt (st : stmt) (r : regs) {struct st} : G regs :=
       end
   | SIgnore b => s <- get ;; set_globals (guard s) (if b then BTrue else BFalse) (one s) ;;; ret r
   end.
-Fixpoint gen_stmts (p : list stmt) (r : regs) : G regs :=
-  match p with [] => ret r | s1 :: p' => r1 <- gen_stmt s1 r ;; gen_stmts p' r1 end.
+Fixpoint gen_stmts (pr : list stmt) (r : regs) : G regs :=
+  match pr with [] => ret r | s1 :: pr' => r1 <- gen_stmt s1 r ;; gen_stmts pr' r1 end.
 
 Definition init_gst : gst :=
-  {| npub := 0; npriv := 0; noid := 10; guard := None; ignore := (if ign0 c then BTrue else BFalse);
+  {| npub := 0; npriv := 0; noid := 10; guard := None; ignore := BIgn0;
      one := ONE_SAFE; unw := None |}.
-Definition gen_prog (p : list stmt) : list cmd :=
-  match gen_stmts p [] init_gst with
+Definition gen_prog (pr : list stmt) : list cmd :=
+  match gen_stmts pr [] init_gst with
   | (inl _, s, cs) => cs ++ out_globals s
   | (inr _, _, cs) => cs
   end.
-Definition model_run (p : list stmt) (ins : list Z) : trace := interp (modulus c) ins (gen_prog p).
-Definition digests (p : list stmt) (ins : list Z) : list Z :=
-  let t := model_run p ins in
-  [digest_vars (modulus c) t; digest_cons (modulus c) t; digest_outs (modulus c) t; digest_exn (modulus c) t].
+Definition model_run (pr : list stmt) (ins : list Z) (ign0 : bool) : trace := interp p ins ign0 (gen_prog pr).
+Definition digests (pr : list stmt) (ins : list Z) (ign0 : bool) : list Z :=
+  let t := model_run pr ins ign0 in
+  [digest_vars p t; digest_cons p t; digest_outs p t; digest_exn p t].
 End Gen.
+End WithP.
